@@ -188,6 +188,7 @@ def run_world(plan: dict, prop: str, byte_exact: bool, setup=None) -> RunResult:
         world.ready_hooks.append(lambda viewer_: model.assoc(viewer_))
         oracle = TransparencyOracle(world, model, res, prop, byte_exact)
         driver = Driver(world, model, res)
+        driver.oracle = oracle
         if setup:
             setup(world, model, oracle, driver, res)
         driver.schedule(plan["steps"])
